@@ -1516,6 +1516,61 @@ Proof.
     rewrite Hq, ft_copy_data. reflexivity.
 Qed.
 
+(** ** UnmarshalJSON after json.Unmarshal (frame_json.go:62-97).  [json.Unmarshal(jsonData, &jf)] is an ORACLE
+    parameter of the translated function; the lemma holds for every oracle that, on the zero jsonFrame,
+    returns what the hand model's oracle [read_doc] returns: an error ([None]; the contents of jf are then
+    irrelevant, the function returns at once) or nil and the five members. *)
+Definition jf_of (j : jframe) : Translated.jsonFrame :=
+  {| Translated.jsonFrame_ID := j_id j; Translated.jsonFrame_Data := j_data j;
+     Translated.jsonFrame_Length := j_length j; Translated.jsonFrame_Extended := j_extended j;
+     Translated.jsonFrame_Remote := j_remote j |}.
+Definition ft_eres (r : outcome * Frame.frame) : Translated.Frame * err :=
+  match r with
+  | (Ok, f) => (ft_of f, err_nil)
+  | (Error, f) => (ft_of f, err_nonnil)
+  | (Panic, f) => (ft_of f, err_nonnil)   (* does not arise: [of_doc_no_panic] *)
+  end.
+Definition json_oracle_ok (o : go_bytes -> Translated.jsonFrame -> err * Translated.jsonFrame)
+    (doc : list Z) (d : option jframe) : Prop :=
+  match d with
+  | None => fst (o doc Translated.zero_jsonFrame) = err_nonnil
+  | Some jf => o doc Translated.zero_jsonFrame = (err_nil, jf_of jf)
+  end.
+
+Lemma of_doc_no_panic d dst : fst (of_doc d dst) <> Panic.
+Proof.
+  destruct d as [[id data len ext rem] |]; cbn; [| discriminate].
+  unfold of_jframe; cbn. destruct data as [str |]; [destruct (hex_decode str) |];
+    destruct rem as [[|] |]; destruct len; cbn; discriminate.
+Qed.
+
+Ltac ft_red :=
+  cbn [Translated.Frame_ID Translated.Frame_Length Translated.Frame_Data Translated.Frame_IsRemote
+       Translated.Frame_IsExtended Translated.set_Frame_ID Translated.set_Frame_Length Translated.set_Frame_Data
+       Translated.set_Frame_IsRemote Translated.set_Frame_IsExtended
+       Translated.jsonFrame_ID Translated.jsonFrame_Data Translated.jsonFrame_Length
+       Translated.jsonFrame_Extended Translated.jsonFrame_Remote
+       go_notnil go_deref negb fst snd err_nil err_nonnil
+       j_id j_data j_length j_extended j_remote
+       f_id f_len f_data f_remote f_ext set_id set_len set_data set_remote set_ext].
+
+Lemma T_Frame_UnmarshalJSON_eq o doc dst d : json_oracle_ok o doc d ->
+  Translated.Frame_UnmarshalJSON o (ft_of dst) doc = ft_eres (of_doc d dst).
+Proof.
+  unfold json_oracle_ok, Translated.zero_jsonFrame, Translated.Frame_UnmarshalJSON. intros H.
+  destruct d as [[id data len ext rem] |].
+  - rewrite H. unfold of_doc, of_jframe, jf_of, ft_of, go_hex_DecodeString. ft_red.
+    destruct data as [str |]; ft_red; [destruct (hex_decode str) as [dec |]; ft_red |];
+      destruct rem as [[|] |]; ft_red; destruct len; ft_red; destruct ext as [[|] |]; ft_red;
+      cbn [ft_eres ft_of]; ft_red; rewrite ?ft_copy_data; try reflexivity.
+  - destruct (o doc _) as [e j]. cbn [fst] in H. subst e. reflexivity.
+Qed.
+
+(** with the model's own oracle: the whole of [unmarshal_json] *)
+Lemma T_Frame_UnmarshalJSON_eq' o doc dst : json_oracle_ok o doc (read_doc doc) ->
+  Translated.Frame_UnmarshalJSON o (ft_of dst) doc = ft_eres (unmarshal_json doc dst).
+Proof. apply T_Frame_UnmarshalJSON_eq. Qed.
+
 (* @group render requires can descriptor physical lookup *)
 (** ** the renderings: pkg/canjson/encode.go and pkg/cantext/encode.go (models: Gen/Render.v, Gen/RenderNum.v,
        bytes of a segment list: Gen/RenderSpec.v [render]) *)
